@@ -884,8 +884,11 @@ func (t *wordMatchTree) matches(cp *contentProvider, cost int, known map[matchTr
 				byteMatchSz: uint32(len(t.word)),
 				fileName:    t.fileName,
 			})
+			offset += idx + len(t.word)
+		} else {
+			// Not a match: the next one may start inside this occurrence.
+			offset += idx + 1
 		}
-		offset += idx + len(t.word)
 	}
 
 	t.found = found
@@ -1351,8 +1354,16 @@ func regexpToWordMatchTree(q *query.Regexp, opt matchTreeOpt) (_ *wordMatchTree,
 		return nil, false
 	}
 
+	// wordMatchTree checks the two word boundaries by looking at the byte before
+	// and the byte after an occurrence of the literal: that is what \b means only
+	// if the literal itself starts and ends with a word character.
+	word := string(sub[1].Rune)
+	if len(word) == 0 || !characterClass(word[0]) || !characterClass(word[len(word)-1]) {
+		return nil, false
+	}
+
 	return &wordMatchTree{
-		word:     string(sub[1].Rune),
+		word:     word,
 		fileName: q.FileName,
 	}, true
 }
